@@ -3,10 +3,12 @@ package main
 // Verifier: program loading, per-function verification driver, mod-set analysis.
 
 import (
+	"encoding/json"
 	"fmt"
 	"go/token"
 	"go/types"
 	"os"
+	"path/filepath"
 	"sort"
 	"strings"
 
@@ -16,6 +18,7 @@ import (
 )
 
 type Verifier struct {
+	nameHints map[string][][2]string // function key -> locals (name, type) in declaration order, recorded on the reference tree
 	repo      string
 	fset      *token.FileSet
 	prog      *ssa.Program
@@ -138,6 +141,10 @@ func loadProgram(repo string) (*Verifier, error) {
 		}
 		cs.Axioms = append(cs.Axioms, lcs.Axioms...)
 		cs.Files = append(cs.Files, lcs.Files...)
+		// name hints: locals of each function under contract in declaration order, as recorded on the reference tree
+		if data, err := os.ReadFile(filepath.Join(libDir, "names.json")); err == nil {
+			json.Unmarshal(data, &v.nameHints)
+		}
 	}
 	// "implements X": the function takes over the clauses of funcspec X (same parameter names required)
 	for _, c := range cs.Funcs {
